@@ -427,6 +427,40 @@ fn main() {
             s.eval_only(&format!("relistings of {}", name), true);
         }
     }
+    // bigraded involutive homology over F2[H] (h = H): the cone reference is over F2 only, so this is library against library —
+    // the bigraded table (rank and torsion per bidegree) is determined by the diagram, hence identical for repeated builds (the
+    // engine's pivot order and therefore the representing cycles vary from build to build) and for relisted crossings
+    {
+        let mut ks: Vec<&str> = NAMES.iter().cloned().filter(|n| InvLink::load(n).map(|l| { let c = l.link().crossing_num(); c >= 4 && c <= 6 }).unwrap_or(false)).collect();
+        r.shuffle(&mut ks);
+        ks.truncate(if thorough { 12 } else { 5 });
+        type P = Poly<'H', FF2>;
+        for name in ks {
+            let Ok(l) = InvLink::load(name) else { continue };
+            for red in [false, true] {
+                let table = |il: &InvLink| -> Option<String> {
+                    let il = il.clone();
+                    guard_timeout(120, move || {
+                        let kh = KhIHomology::<P>::new(&il, &P::variable(), &P::zero(), red).into_bigraded();
+                        let mut cells: Vec<String> = kh.iter().filter(|(_, sm)| sm.rank() > 0 || !sm.tors().is_empty()).map(|(idx, sm)| format!("({},{}):{}:{}", idx.0, idx.1, sm.rank(), sm.tors().len())).collect();
+                        cells.sort();
+                        cells.join(" ")
+                    }).flatten()
+                };
+                let desc = format!("{} reduced={} h=H over F2[H], bigraded", name, red as u8);
+                let Some(base) = table(&l) else { s.oracle(false, "the bigraded involutive homology over F2[H] is computed without panic", &desc, "panic/timeout"); continue };
+                for k in 0..3 {
+                    let il = if k == 2 { guard(|| reordered(&mut r.fork(), &l)).unwrap_or(l.clone()) } else { l.clone() };
+                    match table(&il) {
+                        Some(t) => s.oracle(t == base, "the bigraded involutive homology over F2[H] is determined by the diagram (same table for repeated builds and relisted crossings)", &format!("{} build#{}", desc, k + 1), &format!("{} vs {}", base, t)),
+                        None => s.oracle(false, "the bigraded involutive homology over F2[H] is computed without panic", &desc, "panic/timeout"),
+                    }
+                }
+                s.count("bigraded-F2H");
+            }
+            s.eval_only(&format!("bigraded KhI over F2[H] {}", name), true);
+        }
+    }
     // user codes with the symmetric numbering whose two invariants DIFFER (every table entry has s0 = s1, which hides any
     // confusion between the two classes): 9_46 from the repository's own test; each theory on its own terms
     for (nm, code) in [("9_46-user-code", vec![[18usize,8,1,7],[13,6,14,7],[12,2,13,1],[8,18,9,17],[5,14,6,15],[2,12,3,11],[16,10,17,9],[15,4,16,5],[10,4,11,3]])] {
